@@ -504,6 +504,11 @@ func (lex *Lexer) Lex() *token.Token {
         write exec;
     }%%
 
+    if lex.ts > lex.te {
+        // the machine stopped in its error state before recording a token end
+        lex.te = lex.ts
+    }
+
     tkn.Value = lex.data[lex.ts:lex.te]
     tkn.ID = token.ID(tok)
 
